@@ -55,9 +55,13 @@ fn programs(ctx: &Ctx) -> Vec<Prog> {
     t("begin hperm hperm hmerge end".into(), vec![1, 2, 3, 4, 5, 6, 7, 8, 9, 10, 11, 12]);
 
     let mut nt = |src: &str, stack: Vec<u64>| v.push(Prog { src: src.into(), stack, terminating: false });
-    nt("begin push.1 while.true push.1 end end", vec![]);
-    nt("begin push.1 while.true dup dup mem_store add.1 push.1 end end", vec![]);
-    nt("begin push.1 while.true push.1 while.true push.0 end push.1 end end", vec![]);
+    // "non-terminating" for every limit that is tried (<= 100 000 cycles): 50 000 iterations of at least six
+    // cycles each. They are finite on purpose: if the limit is not enforced the run ends (and is reported as
+    // ran_past_limit) instead of exhausting the machine's memory, which is no verdict at all
+    const K: u64 = 50_000;
+    nt("begin dup neq.0 while.true push.1 sub dup neq.0 end end", vec![K]);
+    nt("begin dup neq.0 while.true dup dup mem_store push.1 sub dup neq.0 end end", vec![K]);
+    nt("begin dup neq.0 while.true push.1 while.true push.0 end push.1 sub dup neq.0 end end", vec![K]);
     v
 }
 
@@ -74,10 +78,23 @@ fn run_with_limit(src: &str, stack: &[u64], max_cycles: Option<u32>) -> Result<O
 
 /// `expected`: the expected-cycles hint (a capacity hint; it must not move the limit)
 fn run_with_limit_and_hint(src: &str, stack: &[u64], max_cycles: Option<u32>, expected: u32) -> Result<Obs, String> {
+    run_with_options(src, stack, max_cycles, expected, 0)
+}
+
+/// `tracing`: 0 = tracing off, 1 = the tracing flag given to `ExecutionOptions::new`, 2 = switched on
+/// afterwards with the builder method `with_tracing()`; neither may move the limit
+fn run_with_options(src: &str, stack: &[u64], max_cycles: Option<u32>, expected: u32, tracing: u8) -> Result<Obs, String> {
     let program = assembler().compile(src).map_err(|e| format!("asm: {e}"))?;
     let opts = match max_cycles {
         None => ExecutionOptions::default(),
-        Some(m) => ExecutionOptions::new(Some(m), expected, false).map_err(|e| format!("options: {e:?}"))?,
+        Some(m) => {
+            let o = ExecutionOptions::new(Some(m), expected, tracing == 1).map_err(|e| format!("options: {e:?}"))?;
+            if tracing == 2 {
+                o.with_tracing()
+            } else {
+                o
+            }
+        }
     };
     guard::catch(|| {
         let mut p = Process::new(program.kernel().clone(), stack_inputs(stack), host(&[]), opts);
@@ -100,11 +117,17 @@ fn run_with_limit_and_hint(src: &str, stack: &[u64], max_cycles: Option<u32>, ex
 }
 
 fn check_case(ctx: &Ctx, src: &str, stack: &[u64], n: Option<u32>, full_mem: &[(u64, u64)], m: u32, expected: u32) {
-    let case = json!({"kind": "limit", "src": src, "stack": stack, "m": m, "n": n, "expected": expected});
+    check_case_t(ctx, src, stack, n, full_mem, m, expected, 0)
+}
+
+#[allow(clippy::too_many_arguments)]
+fn check_case_t(ctx: &Ctx, src: &str, stack: &[u64], n: Option<u32>, full_mem: &[(u64, u64)], m: u32, expected: u32, tracing: u8) {
+    let case = json!({"kind": "limit", "src": src, "stack": stack, "m": m, "n": n, "expected": expected, "tracing": tracing});
+    let how = ["tracing off", "tracing flag given to new()", "with_tracing() after new()"][tracing as usize];
     let fail = |what: &str, detail: String| {
-        ctx.fail(json!({"kind": what}), format!("m={m} n={n:?} expected-cycles hint {expected}: {detail} :: {src} {stack:?}"), case.clone())
+        ctx.fail(json!({"kind": what}), format!("m={m} n={n:?} expected-cycles hint {expected}, {how}: {detail} :: {src} {stack:?}"), case.clone())
     };
-    match run_with_limit_and_hint(src, stack, Some(m), expected) {
+    match run_with_options(src, stack, Some(m), expected, tracing) {
         Err(p) => fail("panic", guard::short_panic(&p)),
         Ok(o) => {
             let should_succeed = n.map(|n| m >= n).unwrap_or(false);
@@ -144,7 +167,7 @@ pub fn run(ctx: &Ctx, replay: Option<&Value>) -> i32 {
             println!("unlimited run: result={:?} clk={}", full.result, full.clk);
             let o = run_with_limit(src, &stack, Some(m)).unwrap();
             println!("limit m={m}: result={:?} clk={} (expected: success iff m >= {n:?})", o.result, o.clk);
-            check_case(ctx, src, &stack, n, &full.mem, m, case["expected"].as_u64().unwrap_or(64) as u32);
+            check_case_t(ctx, src, &stack, n, &full.mem, m, case["expected"].as_u64().unwrap_or(64) as u32, case["tracing"].as_u64().unwrap_or(0) as u8);
         } else {
             check_options_case(ctx, case["max"].as_u64().map(|x| x as u32), case["expected"].as_u64().unwrap() as u32);
         }
@@ -193,6 +216,9 @@ pub fn run(ctx: &Ctx, replay: Option<&Value>) -> i32 {
     cases.par_iter().for_each(|&(i, m)| {
         let p = &progs[i];
         check_case(ctx, &p.src, &p.stack, measured[i].0, &measured[i].1, m, 64);
+        // tracing switched on in both ways (flag of new(), builder method): the limit must stay where it is
+        check_case_t(ctx, &p.src, &p.stack, measured[i].0, &measured[i].1, m, 64, 1);
+        check_case_t(ctx, &p.src, &p.stack, measured[i].0, &measured[i].1, m, 64, 2);
         if m > 64 && m <= 1 << 15 {
             check_case(ctx, &p.src, &p.stack, measured[i].0, &measured[i].1, m, m);
             hinted.fetch_add(1, std::sync::atomic::Ordering::Relaxed);
@@ -247,6 +273,12 @@ fn check_options_case(ctx: &Ctx, max: Option<u32>, expected: u32) {
                 ctx.fail(json!({"kind": "options_accepted"}), format!("max={max:?} expected={expected} accepted"), case);
             } else if o.max_cycles() != eff || o.expected_cycles() < expected.max(64) {
                 ctx.fail(json!({"kind": "options_altered"}), format!("max={max:?} expected={expected} -> {o:?}"), case);
+            } else {
+                // the builder method for tracing changes the tracing flag and nothing else
+                let t = o.with_tracing();
+                if t.max_cycles() != o.max_cycles() || t.expected_cycles() != o.expected_cycles() || !t.enable_tracing() {
+                    ctx.fail(json!({"kind": "options_altered", "by": "with_tracing"}), format!("max={max:?} expected={expected}: {o:?}.with_tracing() -> {t:?}"), case);
+                }
             }
         }
         Ok(Err(_)) => {
